@@ -1172,3 +1172,100 @@ def resolve_upvar_text(p, cb, text):
         v = resolve_upvars(p, parent, v, 1) if parent is not None else v
         return show(v)
     return re.sub(r"\^[*&]*([A-Za-z_]\w*)", rep, text)
+
+
+# --------------------------------------------------------------------------------------
+# alternatives: the values an expression can take across merged temporaries
+
+
+def alternatives(eb, e, limit=48, _depth=0):
+    """All values `e` can take, expanding multi-definition locals (`var` nodes) through every
+    definition and pushing field / variant projections into aggregates: `(X as Some).0.1` with
+    X defined as `Some((a, (b, c)))` on one path and `None` on another yields [(b, c)] - the
+    alternative whose variant cannot match is dropped.  `Try::branch(x) as Continue .0` is the Ok /
+    Some payload of x.  Flow-insensitive; used where a helper returns several values packed in one
+    Result / Option / tuple and the caller takes them apart again."""
+    if _depth > 10:
+        return [e]
+    t = e[0]
+    rec = lambda x: alternatives(eb, x, limit, _depth + 1)
+    if t == "var" and isinstance(e[1], int):
+        out = []
+        saved = (eb.cur_bb, eb.cur_idx)
+        for d in eb.def_exprs(e[1]):
+            if d == e:
+                continue
+            out.extend(rec(d))
+            if len(out) > limit:
+                break
+        eb.cur_bb, eb.cur_idx = saved
+        return out[:limit] or [e]
+    if t == "variant":
+        out = []
+        for a in rec(e[1]):
+            if a[0] == "call" and (a[1].endswith("Try>::branch") or a[1].endswith("Try::branch")) and e[2] in ("Continue", "Break"):
+                # Continue(payload) <- Ok(payload) / Some(payload); Break <- Err / None
+                for x in rec(a[2][0]):
+                    if x[0] == "agg" and (x[1].endswith("Result::Ok") or x[1].endswith("Option::Some")):
+                        if e[2] == "Continue":
+                            out.append(("agg", "Continue", x[2], ()))
+                    elif x[0] == "agg" and (x[1].endswith("Result::Err") or x[1].endswith("Option::None")):
+                        if e[2] == "Break":
+                            out.append(("agg", "Break", (x,), ()))
+                    elif x[0] == "call" and "from_residual" in x[1]:
+                        if e[2] == "Break":
+                            out.append(("agg", "Break", (x,), ()))
+                    else:
+                        out.append(("variant", ("call", a[1], (x,)), e[2]))
+                continue
+            if a[0] == "agg" and "::" in a[1] and not a[1].startswith("closure:"):
+                vname = a[1].rsplit("::", 1)[-1]
+                if vname == e[2]:
+                    out.append(a)
+                elif vname in ("Ok", "Err", "Some", "None", "Continue", "Break"):
+                    continue      # a different variant: this alternative cannot reach here
+                else:
+                    out.append(("variant", a, e[2]))
+            elif a[0] == "agg" and a[1] in ("Continue", "Break"):
+                if a[1] == e[2]:
+                    out.append(a)
+            elif a[0] == "call" and "from_residual" in a[1] and e[2] in ("Ok", "Some", "Continue"):
+                continue
+            else:
+                out.append(("variant", a, e[2]))
+        return out[:limit]
+    if t == "field":
+        out = []
+        for a in rec(e[1]):
+            if a[0] == "agg" and not a[1].startswith("closure:"):
+                ops, names = a[2], (a[3] if len(a) > 3 else ())
+                if names and e[2] in names:
+                    out.extend(rec(ops[names.index(e[2])]))
+                    continue
+                if e[2].isdigit() and int(e[2]) < len(ops) and not names:
+                    out.extend(rec(ops[int(e[2])]))
+                    continue
+            out.append(("field", a, e[2]))
+        return out[:limit]
+    if t == "call" and e[1] in ("std::convert::Into::into", "std::convert::From::from") and len(e[2]) == 1:
+        return rec(e[2][0])
+    return [e]
+
+
+def depends_on_args(eb, e, arg_locals, depth=6, _seen=None):
+    """explicit value dependence of `e` on the given parameters, expanding merged temporaries through
+    `alternatives` (projection-aware, so `(label, (start, end))` packed in one slot does not make the
+    label depend on what `start` depends on).  Returns the first offending sub-expression or None."""
+    _seen = _seen if _seen is not None else set()
+    for a in alternatives(eb, e):
+        for x in walk(a):
+            if x[0] == "arg" and x[1] in arg_locals:
+                return x
+            if x[0] == "var" and isinstance(x[1], int) and x is not a:
+                if x[1] in _seen or depth <= 0:
+                    continue
+                _seen.add(x[1])
+                r = depends_on_args(eb, x, arg_locals, depth - 1, _seen)
+                if r is not None:
+                    return r
+    return None
